@@ -134,3 +134,27 @@ Definition filter_mailboxes (mailboxes : list str) (reference pattern : str) : l
   then if existsb (fun m => str_eqb (to_upper m) INBOX) matches then matches
        else matches ++ [INBOX]
   else matches.
+
+(** ---- LSUB: the names HandleLsub answers for the personal store ----
+    Real subscriptions go through FilterMailboxes; when the pattern contains
+    '%', every proper ancestor (prefix up to a hierarchy delimiter) of a
+    subscribed name that is not itself subscribed and matches reference+pattern
+    is answered with \Noselect. *)
+Fixpoint ancestors_aux (pre m : str) : list str :=
+  match m with
+  | [] => []
+  | c :: m' => (if Ascii.eqb c delim then [rev pre] else []) ++ ancestors_aux (c :: pre) m'
+  end.
+Definition ancestors (m : str) : list str := ancestors_aux [] m.
+
+Definition mem_str (x : str) (l : list str) : bool := existsb (str_eqb x) l.
+
+Definition lsub_implied (subs : list str) (reference pattern : str) : list str :=
+  if existsb (Ascii.eqb pct) pattern then
+    let canon := build_canonical_pattern reference pattern in
+    filter (fun c => negb (mem_str c subs) && match_wildcard c canon) (flat_map ancestors subs)
+  else [].
+
+(** (names answered with \Noselect — a set in the implementation —, names answered as subscribed) *)
+Definition lsub_names (subs : list str) (reference pattern : str) : list str * list str :=
+  (lsub_implied subs reference pattern, filter_mailboxes subs reference pattern).
